@@ -10,7 +10,7 @@ Definition mirror (T : Type) : Region := {|
   clear := fun s => s; merge := fun _ => tt |}.
 
 #[export] Instance mirror_spec T : RSpec (mirror T) :=
-  @Build_RSpec (mirror T) (fun _ => True) (fun _ _ => True) (fun _ _ => True) (fun _ _ => True).
+  @Build_RSpec (mirror T) (fun _ => True) (fun _ _ => True) (fun _ _ => True) (fun _ _ => True) (fun _ => True).
 
 #[export] Instance mirror_ok T : RegionOK (mirror T).
 Proof.
@@ -21,7 +21,7 @@ Proof.
   - intros s v _ _. eexists _, _. split; reflexivity.
   - intros s j _ _. eauto.
   - intros s _. split; exact I.
-  - intros l _. exact I.
+  - intros l _ _. exact I.
   - intros s. exact I.
   - intros s t _. exact I.
   - intros s t u _ _. exact I.
@@ -40,7 +40,7 @@ Definition vec_region (T : Type) : Region := {|
   clear := fun _ => []; merge := fun _ => [] |}.
 
 #[export] Instance vec_region_spec T : RSpec (vec_region T) :=
-  @Build_RSpec (vec_region T) (fun _ => True) (fun (s : list T) (i : nat) => i < length s) (fun _ _ => True) eq.
+  @Build_RSpec (vec_region T) (fun _ => True) (fun (s : list T) (i : nat) => i < length s) (fun _ _ => True) eq (fun _ => True).
 
 #[export] Instance vec_region_ok T : RegionOK (vec_region T).
 Proof.
@@ -53,7 +53,7 @@ Proof.
     rewrite nth_error_app2, Nat.sub_diag by lia. reflexivity.
   - intros s j _ Hj. destruct (nth_error s j) eqn:E; [eauto|]. apply nth_error_None in E. lia.
   - intros s _. split; [exact I|reflexivity].
-  - intros l _. exact I.
+  - intros l _ _. exact I.
   - intros s. reflexivity.
   - intros s t Hst. symmetry. exact Hst.
   - intros s t u H1 H2. congruence.
@@ -76,7 +76,7 @@ Section StringR.
 End StringR.
 
 #[export] Instance string_spec R wf `{RSpec R} : RSpec (string_region R) :=
-  @Build_RSpec (string_region R) (@inv R _) (@valid R _) (fun (s : st R) (v : val R) => @dom R _ s v /\ wf v) (@sim R _).
+  @Build_RSpec (string_region R) (@inv R _) (@valid R _) (fun (s : st R) (v : val R) => @dom R _ s v /\ wf v) (@sim R _) (@mergeable R _).
 
 #[export] Instance string_ok R wf `{RegionOK R} : @RegionOK (string_region R) (@string_spec R wf _).
 Proof.
@@ -125,7 +125,7 @@ End OptionR.
   @Build_RSpec (option_region R) (@inv R _)
     (fun (s : st R) (i : option (idx R)) => match i with None => True | Some j => valid s j end)
     (fun (s : st R) (v : option (val R)) => match v with None => True | Some x => dom s x end)
-    (@sim R _).
+    (@sim R _) (@mergeable R _).
 
 #[export] Instance option_ok R `{RegionOK R} : RegionOK (option_region R).
 Proof.
@@ -184,7 +184,8 @@ End ResultR.
     (fun s : st A * st B => inv (fst s) /\ inv (snd s))
     (fun (s : st A * st B) (i : idx A + idx B) => match i with inl j => valid (fst s) j | inr j => valid (snd s) j end)
     (fun (s : st A * st B) (v : val A + val B) => match v with inl x => dom (fst s) x | inr y => dom (snd s) y end)
-    (fun s t : st A * st B => sim (fst s) (fst t) /\ sim (snd s) (snd t)).
+    (fun s t : st A * st B => sim (fst s) (fst t) /\ sim (snd s) (snd t))
+    (fun l : list (st A * st B) => mergeable (map fst l) /\ mergeable (map snd l)).
 
 Lemma Forall_map_proj {X Y} (P : Y -> Prop) (Q : X -> Prop) (f : X -> Y) l :
   (forall x, Q x -> P (f x)) -> Forall Q l -> Forall P (map f l).
@@ -215,7 +216,7 @@ Proof.
     + destruct (@valid_reads B _ _ b j Hb Hj) as (w & ->). cbn. eauto.
   - intros [a b] [Ha Hb]. cbn in *.
     destruct (@clear_ok A _ _ a Ha), (@clear_ok B _ _ b Hb). auto.
-  - intros l Hl. cbn. split; apply merge_inv.
+  - intros l Hl [Hm1 Hm2]. cbn. split; (apply merge_inv; [|assumption]).
     + eapply Forall_map_proj; [|exact Hl]. intros x [Hx _]. exact Hx.
     + eapply Forall_map_proj; [|exact Hl]. intros x [_ Hx]. exact Hx.
   - intros [a b]. cbn. split; apply sim_refl.
@@ -264,7 +265,8 @@ End Tuple2.
     (fun s : st A * st B => inv (fst s) /\ inv (snd s))
     (fun (s : st A * st B) (i : idx A * idx B) => valid (fst s) (fst i) /\ valid (snd s) (snd i))
     (fun (s : st A * st B) (v : val A * val B) => dom (fst s) (fst v) /\ dom (snd s) (snd v))
-    (fun s t : st A * st B => sim (fst s) (fst t) /\ sim (snd s) (snd t)).
+    (fun s t : st A * st B => sim (fst s) (fst t) /\ sim (snd s) (snd t))
+    (fun l : list (st A * st B) => mergeable (map fst l) /\ mergeable (map snd l)).
 
 #[export] Instance tuple2_ok A B `{RegionOK A} `{RegionOK B} : RegionOK (tuple2 A B).
 Proof.
@@ -287,7 +289,7 @@ Proof.
     destruct (@valid_reads A _ _ a i Ha Hi) as (w & ->). destruct (@valid_reads B _ _ b j Hb Hj) as (z & ->). cbn. eauto.
   - intros [a b] [Ha Hb]. cbn in *.
     destruct (@clear_ok A _ _ a Ha), (@clear_ok B _ _ b Hb). auto.
-  - intros l Hl. cbn. split; apply merge_inv.
+  - intros l Hl [Hm1 Hm2]. cbn. split; (apply merge_inv; [|assumption]).
     + eapply Forall_map_proj; [|exact Hl]. intros x [Hx _]. exact Hx.
     + eapply Forall_map_proj; [|exact Hl]. intros x [_ Hx]. exact Hx.
   - intros [a b]. cbn. split; apply sim_refl.
